@@ -45,6 +45,7 @@ CONSTANTS Ent,        \* entry ids (small integers)
           Defects,    \* static admission defects a submission may carry (C22 rows)
           MaxRm,      \* bound on the size of an explicit removal list
           QueryOn,    \* producer-list queries are part of Next
+          SubW,       \* weight of good submissions in random generation (1 in exhaustive runs)
           MaxOps,     \* bound on the number of steps (0 = unbounded)
           EmitOn      \* build the JSON action label
 
@@ -176,7 +177,8 @@ Chk == [pool   |-> Ids(pool),
         fee    |-> FeeTotal(pool),
         sh     |-> SetToSeq(Lookup(pool)),
         fh     |-> SetToSeq(Lookup(pool)),
-        bytes  |-> "ok",
+        bytes  |-> "ok",                     \* byte counter = sum of the sizes of the contents
+        api    |-> "ok",                     \* GetMempool(all) lists the non-eth contents in arrival order
         h      |-> HdrH]
 
 Emit(r) == act' = IF EmitOn THEN ToJson(r) ELSE ""
@@ -184,7 +186,9 @@ Step == /\ (MaxOps = 0 \/ nops < MaxOps)
         /\ nops' = IF MaxOps = 0 THEN 0 ELSE nops + 1
 
 Init == /\ pool = <<>> /\ latest = <<>> /\ chain = <<>> /\ now = 0 /\ nops = 0
-        /\ act = IF EmitOn THEN ToJson([op |-> "Init"]) ELSE ""
+        /\ act = IF EmitOn THEN ToJson([op |-> "Conf", tab |-> Tab, senders |-> Senders, cap |-> Cap,
+                                        persender |-> PerSender, maxlast |-> MaxLast,
+                                        levelfee |-> LevelFee, tierat |-> TierAt]) ELSE ""
 
 Submit(e, d) ==
   /\ Step
@@ -263,14 +267,25 @@ GetTxList(n, excl) ==
 SmallSets(S, k) == {T \in SUBSET S : Cardinality(T) <= k}
 Blocks == {SetToSeq(T) : T \in SmallSets(Ent, MaxBlk)}
 
-Next == \/ \E e \in Ent : Submit(e, None)
+\* Candidate arguments.  Removal lists and blocks are drawn from the pool's contents plus the
+\* smallest and largest entry that is neither in the pool nor on the chain (a removal of an absent
+\* hash, a block bringing transactions the pool never saw): this keeps submissions a sizeable
+\* share of the enabled steps, which is what random generation samples from.
+Absent == Ent \ (IdSet(pool) \cup ChainSet)
+Far == IF Absent = {} THEN {}
+       ELSE {CHOOSE x \in Absent : \A y \in Absent : x <= y, CHOOSE x \in Absent : \A y \in Absent : x >= y}
+RmCands == SmallSets(IdSet(pool) \cup Far, MaxRm) \ {{}}
+BlkCands == {SetToSeq(T) : T \in SmallSets(IdSet(pool) \cup Far, MaxBlk)}
+QryCands == SmallSets(IdSet(pool) \cup Far, 2)
+
+Next == \/ \E w \in 1..SubW : \E e \in Ent : Submit(e, None)
         \/ \E e \in Ent : \E d \in DefectsOf(e) : Submit(e, d)
-        \/ \E b \in Blocks : AddBlock(b)
+        \/ \E b \in BlkCands : AddBlock(b)
         \/ DelBlock
-        \/ \E S \in SmallSets(Ent, MaxRm) \ {{}} : Remove(S)
+        \/ \E S \in RmCands : Remove(S)
         \/ SweepNow
         \/ Tick
-        \/ (QueryOn /\ \E n \in 1..(Cap + 1) : \E excl \in SmallSets(Ent, 2) : GetTxList(n, excl))
+        \/ (QueryOn /\ \E n \in 1..(Cap + 1) : \E excl \in QryCands : GetTxList(n, excl))
 
 Spec == Init /\ [][Next]_vars
 
